@@ -73,13 +73,13 @@ theorem step_acc (s : Sys) (op : Op) (hs : SAcc s) : SAcc (s.step op).1 := by
   | connect h cslot sslot peer =>
     rw [Sys.step]
     try dsimp only
-    exact settleConnect_acc s cslot _ _ _ hs (((hs.kernel h).openSock _ _).pollConnect _ _)
+    exact settleConnect_acc s cslot _ _ _ hs (((hs.kernel h).openSock _ _).pollConnect s.cfg _ _)
   | cpoll cslot sslot =>
     rw [Sys.step]
     split
     · exact hs
     · dsimp only
-      exact settleConnect_acc s cslot _ _ _ hs ((hs.kernel _).pollConnect _ _)
+      exact settleConnect_acc s cslot _ _ _ hs ((hs.kernel _).pollConnect s.cfg _ _)
   | ccancel cslot =>
     rw [Sys.step]
     split
